@@ -16,7 +16,9 @@ from transformed or selected end points of an existing arc is an instance:
                        scale by any `s ≠ 0`; for `s < 0` the eccentric angles shift by half a turn);
 * `built_centerform` — every arc the constructor accepts IS such a centre-form arc (from `point_zero`, `point_one`,
                        `delta_sweep_large`, `delta_exact_fit`), so the corollaries apply to constructor-built arcs:
-                       `built_reversed`, `built_cropped`.
+                       `built_reversed`, `built_cropped`;
+* `arcInit_eq`, `init_admissible` — the constructor itself (`abs` of the radii, `bool()` of the flags; tied by the
+                       exact stream "Arc.__init__") feeds `_parameterize` admissible data with positive radii.
 
 Exact arithmetic over ℝ with the exact reading of `np.isclose` (the 1e-8 snap band is finding F29). -/
 namespace SvgVerif.Props.C04RoundTrip
@@ -726,5 +728,29 @@ theorem built_cropped (hA : Admissible sx sy ex ey rx0 ry0 wx wy) (hrx : 0 < rx0
   · exact this.2
 
 end built2
+/-! ## the constructor -/
+section init
+variable {sx sy ex ey rx0 ry0 : ℝ}
+
+theorem sabs_eq_abs (x : ℝ) : SvgVerif.Model.sabs x = |x| := by
+  unfold SvgVerif.Model.sabs
+  split
+  · rename_i h; rw [abs_of_neg h]
+  · rename_i h; rw [abs_of_nonneg (not_lt.mp h)]
+
+/-- `Arc.__init__` is `_parameterize` on the absolute radii and the `bool()` of the flags -/
+theorem arcInit_eq (la sw : Int) :
+    arcInit Real.sqrt acosDeg czExact sx sy ex ey rx0 ry0 wx wy la sw
+      = (arcParams sx sy ex ey |rx0| |ry0| wx wy (decide (la ≠ 0)) (decide (sw ≠ 0)), decide (la ≠ 0), decide (sw ≠ 0)) := by
+  simp only [arcInit, arcParams, sabs_eq_abs]
+
+/-- for every input the constructor accepts (`start ≠ end`, both radii non-zero — of either sign —, `rot_matrix` a unit
+complex) the parameters it stores satisfy everything proved for admissible inputs, with positive radii -/
+theorem init_admissible (hw : wx * wx + wy * wy = 1) (hrx : rx0 ≠ 0) (hry : ry0 ≠ 0) (hne : sx ≠ ex ∨ sy ≠ ey) :
+    Admissible sx sy ex ey |rx0| |ry0| wx wy ∧ 0 < |rx0| ∧ 0 < |ry0| :=
+  ⟨⟨hw, abs_ne_zero.mpr hrx, abs_ne_zero.mpr hry, hne⟩, abs_pos.mpr hrx, abs_pos.mpr hry⟩
+
+end init
+
 end rt
 end SvgVerif.Props.C04RoundTrip
